@@ -184,7 +184,32 @@ func init() {
 		rule: "cases: 150-600 tiny writes interleaved with deletes, collector runs, drains and reopenings, directory limit at its clamp (config values 0-150 generated), 1-3 roots; after every step a walk of the roots: every regular file at root/<uuid>/<uuid>, a uuid directory per root once a write was attempted, no directory above the limit, a directory that was full and regained room receives a new file within 300 further writes; non-trivial = at least 100 writes (directories rotate)",
 		runs: [2]int{600, 20000},
 		gen: func(r *simrt.Rand, idx int, tier string) SeqCase {
-			c := genSeqCase(r, seqProfile{prop: "C17", steps: [2]int{150, 600}, keys: [2]int{4, 8}, ctlWeight: 6, reopen: 1, readback: "none", walk: "shape", deleteHeavy: true})
+			c := genSeqCase(r, seqProfile{prop: "C17", steps: [2]int{150, 600}, keys: [2]int{4, 8}, ctlWeight: 6, reopen: 1, readback: "none", walk: "shape", deleteHeavy: idx%2 == 0})
+			if idx%2 == 1 {
+				// many live keys: directories stay full (several per root at the same time), also across reopenings
+				for i := 0; i < 400; i++ {
+					c.Keys = append(c.Keys, fmt.Sprintf("k%03d", i))
+				}
+				for i := range c.Ops {
+					if c.Ops[i].Key != "" && c.Ops[i].Key != "never-written" && r.Intn(10) > 0 {
+						c.Ops[i].Key = c.Keys[len(c.Keys)-400+r.Intn(400)]
+					}
+				}
+				c.World.Roots = c.World.Roots[:1+r.Intn(min(2, len(c.World.Roots)))]
+				// and reopenings once several directories have filled up, followed by more writes
+				id := uint64(500000)
+				for round := 0; round < 2; round++ {
+					for k := 0; k < 120+r.Intn(120); k++ {
+						id++
+						c.Ops = append(c.Ops, Op{K: "set", Key: c.Keys[len(c.Keys)-400+r.Intn(400)], ID: id, Size: 1 + r.Intn(16)})
+					}
+					c.Ops = append(c.Ops, Op{K: "reopen"})
+					for k := 0; k < 5+r.Intn(30); k++ {
+						id++
+						c.Ops = append(c.Ops, Op{K: "set", Key: c.Keys[len(c.Keys)-400+r.Intn(400)], ID: id, Size: 1 + r.Intn(16)})
+					}
+				}
+			}
 			c.World.MaxDirCount = []uint64{0, 1, 50, 99, 100, 100, 101, 150}[r.Intn(8)]
 			for i := range c.Ops {
 				if c.Ops[i].Size > 0 {
